@@ -65,6 +65,8 @@ def shards(tier, seed):
     # (other fields) has had its array type of the same shape requested and used
     tw = [t for t in ts if t[0] == "A" and t[1][0] == "St"]
     out += [("twin-item", c) for c in cons.chunk(tw, 8 if tier == "quick" else 16)]
+    # struct classes whose reference fields are DECLARED with non-null defaults (default=, default_factory=)
+    out += [("declared-defaults", "default"), ("declared-defaults", "factory")]
     return out
 
 
@@ -134,8 +136,64 @@ _HIST = [None]
 DECL_FORMS = ["py", "nd", "ndF", "xobj-other", "cap", "len"]
 
 
+def run_declared_defaults(variant, res):
+    """fields declared with a non-null default: what is GIVEN at construction is read back (None included: a null), what is
+    omitted reads the default; as keywords, as a dictionary, as an item of an array of such structs, nested in another struct,
+    in a fresh buffer and in a dirty hole"""
+    from . import c08, c09
+
+    Pd, Ud, Hd, Od = c08.defaults_classes(variant)
+    dflt = {"r": (7, 1.5), "u": (9, 3.5)}
+    given = {"r": c08.d_arg(variant, {"a": 1, "b": 0.5}), "u": ("C08Pd", {"a": 2, "b": 0.25})}
+    want_given = {"r": (1, 0.5), "u": (2, 0.25)}
+    n = 0
+    for rmode in ("omitted", "none", "value"):
+        for umode in ("omitted", "none", "value"):
+            arg, want = {"k": 5}, {"k": 5}
+            for f, mode in (("r", rmode), ("u", umode)):
+                if mode == "none":
+                    arg[f] = None
+                elif mode == "value":
+                    arg[f] = given[f]
+                want[f] = None if mode == "none" else want_given[f] if mode == "value" else dflt[f]
+            for how in ("kwargs", "dict", "array-item", "nested", "dirty-hole"):
+                res.cases += 1
+                res.transitions += 1
+                res.events["construct"] += 1
+                f_ = dict(root="St", form="py:" + how, decl="declared-defaults:" + variant, r=rmode, u=umode)
+                cid = dict(part="declared-defaults", variant=variant, r=rmode, u=umode, how=how)
+                try:
+                    if how == "kwargs":
+                        h = Hd(**arg)
+                    elif how == "dict":
+                        h = Hd(dict(arg))
+                    elif how == "array-item":
+                        h = Hd[:]([dict(arg), dict(arg)])[1]
+                    elif how == "nested":
+                        h = Od(h=dict(arg), z=3).h
+                    else:
+                        pl = place.place("dirtyhole", 256)
+                        h = Hd(dict(arg), **pl.kw)
+                    got = c09.d_read(h)
+                except Exception as e:
+                    res.violations.append(common.violation("C01.construct", "raises:" + common.exc_failure(e), f_, cid, repr(e)))
+                    continue
+                res.oracles["readback"] += 1
+                if got != want:
+                    res.outcomes["bad:declared-default"] += 1
+                    res.violations.append(common.violation("C01.readback", "value-mismatch", f_, cid, "given %r (%s), read back %r, expected %r" % (arg, how, got, want)))
+                else:
+                    res.outcomes["ok:declared-default"] += 1
+                    n += 1
+    res.states = res.nontrivial = n
+    res.max_depth = 1
+    return res
+
+
 def run_shard(types, tier, seed):
     res = common.ShardResult()
+    if isinstance(types, tuple) and types[0] == "declared-defaults":
+        return run_declared_defaults(types[1], res)
     seen = set()
     pf = places_for(tier)
     forms = FORMS
@@ -173,6 +231,9 @@ def run_shard(types, tier, seed):
 
 
 def replay(case):
+    if case.get("part") == "declared-defaults":
+        r = run_declared_defaults(case["variant"], common.ShardResult())
+        return [v for v in r.violations if all(v["case"].get(k) == case.get(k) for k in ("r", "u", "how"))]
     t = xt.retuple(case["type"])
     xt.DECL[0] = case.get("decl", "index")
     if case.get("process_history") == "twin-item":
